@@ -43,6 +43,8 @@ package main
 // (These four summary clauses are assumed, not proved: they concern the detaching of stuck sessions. The fan-out rules
 // proper - who gets a copy - are the C02 clauses below and are proved.)
 //@ func (t *Topic) broadcastToSessions(msg *ServerComMessage)
+// (nothing on the publishing path starts a call: with no call in progress before, there is none after)
+//@   ensures [C15] no_call_stays_no_call: old(t.currentCall == nil) ==> t.currentCall == nil
 //@   requires [C02] t != nil && msg != nil
 //@   modifies inferred
 //@   ensures [assumed] t.lastID >= old(t.lastID) && t.name == old(t.name) && t.cat == old(t.cat)
@@ -62,6 +64,8 @@ package main
 // C01: message ids
 // ---------------------------------------------------------------------------------------------
 //@ func (t *Topic) saveAndBroadcastMessage(msg *ClientComMessage, asUid types.Uid, noEcho bool, attachments []string, head map[string]any, content any) (err error)
+// (nothing on the publishing path starts a call: with no call in progress before, there is none after)
+//@   ensures [C15] no_call_stays_no_call: old(t.currentCall == nil) ==> t.currentCall == nil
 //@   requires [C01] t != nil && msg != nil && msg.sess != nil
 //@   requires [C01] inv_seq: rowMax[t.name] <= t.lastID
 //@   ensures [C01] inv_seq:      rowMax[t.name] <= t.lastID
@@ -177,13 +181,18 @@ package main
 
 // Ending a call: whatever happens while the replacement message is written, the call is over afterwards.
 //@ func (t *Topic) maybeEndCallInProgress(from string, msg *ClientComMessage, callDidTimeout bool)
-//@   requires [C15] t != nil && msg != nil && msg.sess != nil && rowMax[t.name] <= t.lastID
+// (C15 "ends exactly once", C13 "never terminates the server": publishing the closing message can itself drop a party's
+// session whose queue is stuck, and dropping a party's session ends the call in progress - so the call must be over, as
+// far as the topic is concerned, before anything is published or broadcast on its behalf)
+//@   assert at call saveAndBroadcastMessage [C13,C15] call_is_over_before_its_end_is_published: t.currentCall == nil
+//@   assert at call broadcastToSessions [C13,C15] call_is_over_before_the_hangup_is_broadcast: t.currentCall == nil
+//@   requires [C15] t != nil && msg != nil && msg.sess != nil
 //@   modifies inferred
 //@   ensures [C15] ended: t.currentCall == nil
 //@   ensures [C15] idle_noop: old(t.currentCall == nil) ==> t.lastID == old(t.lastID) && (forall s int :: outCount[s] == old(outCount[s]))
 //@   assert at call messageHead [C02] only_the_requests_own_headers_are_edited: $1 == nil || (msg.Pub != nil && $1 == msg.Pub.Head)
 //@ func (t *Topic) terminateCallInProgress(callDidTimeout bool)
-//@   requires [C15] t != nil && rowMax[t.name] <= t.lastID
+//@   requires [C15] t != nil
 //@   modifies inferred
 //@   ensures [C15] ended: t.currentCall == nil
 // (a termination decided by the server is not attributed to a party: the closing message says "disconnected" or, on
@@ -940,6 +949,7 @@ package main
 // A plain {leave}: when the topic drops the session from its table, the session drops the topic from its own
 // (whatever the reply is).
 //@ func (t *Topic) handleLeaveRequest(msg *ClientComMessage, sess *Session)
+//@   ensures [C15] no_call_stays_no_call: old(t.currentCall == nil) ==> t.currentCall == nil
 //@   requires [C14] t != nil && msg != nil && sess != nil && (msg.init ==> msg.Leave != nil)
 //@   modifies *
 //@   ensures [C10,C14] online_follows_attachment: old(sess.multi == nil && sess.proto != PROXY && !sess.background && (sess in t.sessions) && !(msg.init && msg.Leave.Unsub) && t.sessions[sess].uid != types.ZeroUid && (t.sessions[sess].uid in t.perUser)) && !(sess in old(t.sessions)) && (old(t.sessions[sess].uid) in t.perUser) ==> t.perUser[old(t.sessions[sess].uid)].online == old(t.perUser[t.sessions[sess].uid].online) - 1
@@ -1022,10 +1032,11 @@ package main
 // The topic side of the bookkeeping: a client-initiated {leave} that reaches the topic always has its in-flight mark
 // cleared, whatever became of the session's attachment in the meantime; the registration side likewise.
 //@ func (t *Topic) unregisterSession(msg *ClientComMessage)
+// (nothing on the publishing path starts a call: with no call in progress before, there is none after)
+//@   ensures [C15] no_call_stays_no_call: old(t.currentCall == nil) ==> t.currentCall == nil
 //@   requires [C14] t != nil && msg != nil && msg.sess != nil
 // (assumed of the senders: a client's own {leave} - init set - carries its body; Session.leave builds it that way)
 //@   requires [C14,assumed] client_leave_has_body: msg.init ==> msg.Leave != nil
-//@   requires [C15] inv_seq: rowMax[t.name] <= t.lastID
 //@   modifies *
 //@   ensures [C14] leave_mark_cleared: msg.init && msg.sess.inflightReqs != nil ==> doneCalls > old(doneCalls)
 // (C15: "disconnected when a party's session leaves" - however the session leaves: a {leave}, a lost connection or a stuck
